@@ -5,24 +5,19 @@
 (*      count, call variant, the completion order TLC chose, the inputs and  *)
 (*      the value the SPEC returns.  Model checking enumerates all of them   *)
 (*      for small n; -simulate draws random ones for n <= 64, nw <= 16.      *)
-(*  (2) Sleep ranks: a random permutation `rank` (job i sleeps rank[i]*delta)  *)
-(*      attached to every simulated schedule (SimInit), or drawn on its own   *)
-(*      with random n, nw (RankInit/RankNext; expected = definition Expected).*)
+(*  (2) Sleep ranks: a random permutation `rank` (job i sleeps rank[i]*delta,  *)
+(*      or: priority vector for the schedule hook) drawn with every simulated  *)
+(*      run (Restart).                                                        *)
 EXTENDS ParallelRunner, TLC, Json, IOUtils
-
-CONSTANTS NCases     \* number of random cases for generator (2)
 
 VARIABLES c, rank
 
 Small   == 0 .. 5
 Small4  == 0 .. 4
 SmallW  == 1 .. 5
-Small4W == 1 .. 4
+Small4W == {1, 2, 4}
 BigN    == 0 .. 64
 BigW    == 1 .. 16
-\* worker counts chosen by the harness (JSON array in the file named by WSET_FILE)
-EnvW    == LET s == JsonDeserialize(IOEnv.WSET_FILE) IN {s[k] : k \in 1 .. Len(s)}
-
 Order == [k \in 1 .. Len(arrived) |-> arrived[k][1]]
 
 SchedRec == [gen |-> "schedule", n |-> n, w |-> nw, mode |-> mode, order |-> Order, rank |-> rank,
@@ -59,19 +54,4 @@ Restart == /\ phase = "returned"
            /\ phase' = "run" /\ ret' = <<>>
 SimNext == (Next /\ UNCHANGED <<c, rank>>) \/ Restart
 EmitSim == (phase = "returned" /\ c > 0) => PrintT(ToJson(SchedRec))
-
-RankRec == [gen |-> "ranks", n |-> n, w |-> nw, mode |-> mode, rank |-> rank,
-            args |-> [k \in 1 .. n |-> Arg(k - 1)], keys |-> [k \in 1 .. n |-> Key(k - 1)],
-            expected |-> Expected(mode)]
-
-EmitRank == (c > 0) => PrintT(ToJson(RankRec))
-
-RankInit == /\ Init /\ n = 0 /\ nw = 1 /\ c = 0 /\ rank = <<>>
-RankNext == /\ c < NCases
-            /\ c' = c + 1
-            /\ n' = RandomElement(NSet)
-            /\ nw' = RandomElement(WSet)
-            /\ mode' = RandomElement(Modes)
-            /\ rank' = RandPerm(0 .. (n' - 1))
-            /\ UNCHANGED <<pending, running, arrived, collected, store, execs, phase, ret>>
 =============================================================================
